@@ -158,16 +158,20 @@ def parser_key_alphabet(prog, kv):
 def tag_valid_alphabet(prog, tf):
     """Tag::try_from: one character scan over the input (`find/position/any/all` with a closure, or a `for` loop) whose
     hit returns Err; valid alphabet = complement of the hit set.  Also reports the empty check."""
-    tf = with_scan_helpers(prog, tf)
     try:
         sc = scan_of(prog, tf)
     except charset.Opaque:
         # the validation may have been moved into a private helper that try_from calls first and propagates with `?`
         from ..scans import delegated_validator
         hv = delegated_validator(prog, tf)
-        if hv is None:
+        if hv is not None:
+            return tag_valid_alphabet(prog, hv)
+        # .. or only the scan was given a name (`first_invalid_char(raw) -> Option<(usize, char)>`)
+        tf2 = with_scan_helpers(prog, tf)
+        if tf2 is tf:
             raise
-        return tag_valid_alphabet(prog, hv)
+        tf = tf2
+        sc = scan_of(prog, tf)
     if not found_rejects(tf, sc):
         raise charset.Opaque("the 'invalid character found' edge does not lead to an Err return only")
     if not sc["receiver_ok"]:
